@@ -35,7 +35,7 @@ Apply(M, call) ==
       \* writing 777 through the mutable flat view at the position of element (row 0, column 1)
       [] c = "slice_write" -> SetAtM(M, 1, 2, FI(777))
 RECURSIVE Run(_, _, _)
-Run(M, calls, k) == IF k = 0 THEN M ELSE Apply(Run(M, calls, k - 1), calls[k])
+Run(M, calls, k) == IF k = 0 THEN M ELSE ForceM(Apply(Run(M, calls, k - 1), calls[k]))
 
 (* The two refinements: what each call does to the STORED lines (rows of   *)
 (* the row-major value, columns of the column-major one).                  *)
